@@ -67,7 +67,7 @@ func (s *sim) wrongNetTwin(e *entry) *variant {
 // other network (never for this one).
 func (s *sim) wrongNetFresh(a *acct, stateNonce uint64) *variant {
 	to := s.accts[(a.idx+1)%len(s.accts)].addr
-	f := &txFields{Nonce: stateNonce, Price: big.NewInt(2), Gas: 21000, To: &to, Value: big.NewInt(777), Data: nil}
+	f := &txFields{Nonce: stateNonce, Price: big.NewInt(int64(200 + a.idx)), Gas: 21000, To: &to, Value: big.NewInt(777), Data: nil}
 	f.sign(a.key, otherNetID)
 	return s.addVariant(f.encode(), "wrong-network-fresh", nil, fmt.Sprintf("%s nonce %d signed only for network %d", a.name, stateNonce, otherNetID))
 }
